@@ -29,8 +29,11 @@ class Contract:
 
     def __init__(self, name, target, setup, requires=None, ensures=None, raises=None, loops=None, callees=None,
                  canaries=(), dropped=(), decorators=None, generator=None, on_exit=None, note="", max_paths=400,
-                 class_models=None, timeout_ms=None, concretize=None, hints=None, stop_after=None, stop_before=None, rounds=None, ghost=None, lean=()):
+                 class_models=None, timeout_ms=None, concretize=None, hints=None, stop_after=None, stop_before=None, rounds=None, ghost=None, lean=(), may_raise=()):
         self.name, self.target, self.setup = name, target, setup
+        # partial correctness on named statements: [(exception, obligation kind, statement slug)] - the safety obligation of that kind at
+        # that statement is NOT proved; the contract then says what holds WHENEVER the function returns (the real statement raises otherwise)
+        self.may_raise = list(may_raise)
         self.requires = requires or (lambda ctx, st: [])
         self.ensures = ensures or (lambda ctx, st, ret: [])
         self.raises = raises or {}
@@ -106,6 +109,7 @@ def run_contract(con, timeout_ms=10000, keep_models=True, verbose=False):
         outcome = None
         ctx.ip = ip
         ctx.allowed_raises = set(con.raises)
+        ctx.may_raise = list(con.may_raise)
         try:
             st = con.setup(ctx)
             ctx.assume(*con.requires(ctx, st))
